@@ -18,6 +18,10 @@ use crate::{
     sim::Sched,
 };
 
+thread_local! {
+    static FORCE_FRESH: std::cell::Cell<bool> = std::cell::Cell::new(false);
+}
+
 pub struct C15Check;
 pub static C15: C15Check = C15Check;
 
@@ -174,11 +178,24 @@ pub fn generate(r: &mut Rng, contradictory: bool) -> Generated {
     let mut judgements: Vec<(usize, Ev)> = Vec::new();
     let mut emitted: Vec<Vec<Ev>> = vec![Vec::new(); n_classes];
     let mut pushed_words = 0usize;
+    let many_class = if r.chance(1, 24) {
+        truths
+            .iter()
+            .position(|t| matches!(t, Truth::DynArray { .. } | Truth::FixedArray { .. }))
+            .unwrap_or(usize::MAX)
+    } else {
+        usize::MAX
+    };
     let packed_classes = truths.iter().filter(|t| matches!(t, Truth::Packed { .. })).count();
     // A component variable of class k: an existing one, or a fresh one equated
     // to an existing one.
     let component = |r: &mut Rng, k: usize, class_of: &mut Vec<usize>, vars_of: &mut Vec<Vec<usize>>, judgements: &mut Vec<(usize, Ev)>| -> usize {
-        if r.chance(1, 2) {
+        if vars_of[k].len() < 600 && FORCE_FRESH.with(std::cell::Cell::get) {
+            // (many-pieces mode) always a fresh element variable
+        } else if r.chance(1, 2) {
+            return *r.pick(&vars_of[k]);
+        }
+        if false {
             *r.pick(&vars_of[k])
         } else {
             let fresh = class_of.len();
@@ -200,7 +217,17 @@ pub fn generate(r: &mut Rng, contradictory: bool) -> Generated {
             let j = r.usize_below(i);
             judgements.push((vs[i], Ev::Equal { other: vs[j] }));
         }
-        let n_ev = if minimal { 1 } else { 1 + r.usize_below(5) };
+        // Now and then one array class carries hundreds of distinct pieces
+        // (each over its own fresh-but-equated element variable).
+        let many = !minimal && c == many_class;
+        let n_ev = if minimal {
+            1
+        } else if many {
+            260 + r.usize_below(200)
+        } else {
+            1 + r.usize_below(5)
+        };
+        FORCE_FRESH.with(|f| f.set(many));
         for _ in 0..n_ev {
             let holder = *r.pick(&vars_of[c]);
             let e = if !minimal && r.chance(1, 8) {
@@ -366,6 +393,13 @@ pub fn generate(r: &mut Rng, contradictory: bool) -> Generated {
                             length: *length + (1 << 32),
                         },
                     })
+                }
+                Ev::DynArray { .. } if r.chance(1, 2) => {
+                    // "two different widths" on a value that is also used as
+                    // an array: the pair of words is the contradiction (an
+                    // array tolerates one unsigned word, its length)
+                    judgements.push((holder, Ev::word(Some(160), WordUse::Address)));
+                    Some(Ev::word(Some(8), WordUse::Bool))
                 }
                 Ev::DynArray { .. } | Ev::FixedArray { .. } => Some(Ev::Mapping {
                     key:   fresh(&mut class_of),
